@@ -112,6 +112,24 @@ CHECKS = {
 NOT_YET = {}
 
 
+# extensions built after the first round (appended to the level text of the property)
+ADDENDA = {
+    "C01": " Driven signals are also made ports of the converted module (output wire / output reg): port directions and the net/variable legality of every assignment in the emitted text (IEEE 1364 6.1, 9.2) are part of the oracle.",
+    "C03": " Pack/Unpack ratios up to 8, converter ratios 5/6, stride ratios 6/8.",
+    "C05": " Sub-check uart-core-cdc: UART(phy_cd != sys) with its software side driven through a real CSR bank in sys and the PHY side in another domain.",
+    "C06": " Topology 'socbus': the interconnect SoCBusHandler.do_finalize composes from masters / slaves / regions declared through its API (shared or crossbar requested; point-to-point only for one master and one slave at origin 0).",
+    "C08": " Sub-check axilite-deep-queues: AXILiteArbiter with 4..8 requests of one direction outstanding at a queueing slave while other masters compete.",
+    "C09": " AXILite2CSR also receives partial write strobes (any non-zero strobe writes the word).",
+    "C10": " R stalls with varying id / resp through AXIDownConverter; single beats of intermediate size at ratio 4/8; transfers not wider than the narrow bus are a recorded known finding (not generated).",
+    "C11": " The SoC error counter is also started close to its maximum (saturation).",
+    "C12": " CSR bus address widths 15/16 with banks in the pages only the extra address bits reach.",
+    "C13": " Uncached regions declared at fixed origins must lie inside an IO region (origins generated around the ends of declared IO regions).",
+    "C14": " atomic_write storages written through the published accessor order; CSR memory windows wider than the CSR word and larger than one page, accessed through the published page register; registers made of fields: header OFFSET/SIZE macros, SVD bit-range pieces and the hardware's field signals.",
+    "C15": " Sub-checks uart-client and timer-client: the UART and Timer cores' own event managers (pending cleared by software's write-one only, also with rx_fifo_rx_we).",
+    "C16": " Header field names are generated in an order unrelated to the fields' positions.",
+}
+
+
 def main():
     props = [json.loads(l) for l in open(os.path.join(HERE, "properties.jsonl"))]
     checks = []
@@ -120,6 +138,7 @@ def main():
         pid = p["id"]
         if pid in CHECKS:
             cat, tech, text, note, ref = CHECKS[pid]
+            text = text + ADDENDA.get(pid, "")
             checks.append({
                 "property_id": pid,
                 "quick_cmd": "/venv/bin/python run.py %s --tier quick" % pid,
